@@ -23,7 +23,8 @@ void harness(void){
 #else
   OggVorbis_File vf; memset(&vf,0,sizeof vf); int ds=1; vf.datasource=&ds; vf.callbacks=env_cb; vf.seekable=1;
   ogg_stream_init(&vf.os,-1);
-  vorbis_info vi; vorbis_comment vc;        /* deliberately NOT initialised: arbitrary stack contents (CBMC: nondet) */
+  vorbis_info vi; vorbis_comment vc;        /* arbitrary prior contents (what an uninitialised stack object holds), drawn explicitly so that the native replay sees the same bytes */
+  { unsigned char *p=(unsigned char*)&vi; for(unsigned i=0;i<sizeof vi;i++) p[i]=ND_uchar(); p=(unsigned char*)&vc; for(unsigned i=0;i<sizeof vc;i++) p[i]=ND_uchar(); }
   long *list=0; int n=0;
   int r=_fetch_headers(&vf,&vi,&vc,&list,&n,0);
   if(r){ CHECK(r==OV_EREAD||r==OV_ENOTVORBIS||r==OV_EBADHEADER||r==OV_EVERSION||r==OV_EFAULT,"documented code");
